@@ -269,3 +269,33 @@ Fixpoint branches (verify : bytes -> bytes -> bytes -> res unit) (authic : bool)
 Definition case_branches (c : case) : list nat :=
   branches (vlookup (c_verify c)) (c_authic c) init (c_ops c).
 Definition n_branches : nat := 16.
+
+(* ---- C20 correspondence: segmentation by the real rend, then delivery ---- *)
+(* sign is instantiated with the table of the real Memoer.sign calls:
+   ((vid, ser), 88 char signature text) *)
+Definition stable := list (bytes * bytes * bytes).
+Fixpoint slookup (t : stable) (v m : bytes) : bytes :=
+  match t with
+  | [] => []
+  | (v', m', sg) :: t' => if bytes_eqb v v' && bytes_eqb m m' then sg else slookup t' v m
+  end.
+
+Record sent := { s_params : rparams; s_text : bytes; s_grams : res (list bytes) }.  (* observed rend output *)
+
+Record case20 := { k_sign : stable; k_sent : list sent; k_rx : case }.
+
+Definition check_sent (t : stable) (s : sent) : bool :=
+  res_eqb (list_eqb bytes_eqb) (rend (slookup t) (s_params s) (s_text s)) (s_grams s).
+
+Definition check_case20 (c : case20) : bool :=
+  forallb (check_sent (k_sign c)) (k_sent c) && check_case (k_rx c).
+
+Definition case20_branches (c : case20) : list nat :=
+  map (fun s => match s_grams s with
+                | Exc _ => 16
+                | Ok g => (if r_curt (s_params s) then 17 else 18)
+                end) (k_sent c)
+  ++ map (fun s => match s_grams s with
+                   | Ok [_] => 19 | Ok (_ :: _ :: _) => 20 | _ => 21 end) (k_sent c)
+  ++ case_branches (k_rx c).
+Definition n_branches20 : nat := 22.
